@@ -44,12 +44,13 @@ fn ref_flags(y: i64) -> i64 {
     let w = (day_num(y, 1, 0) + 6).rem_euclid(7);
     (if is_leap(y) { 0 } else { 8 }) + if w == 0 { 7 } else { w }
 }
-type IsoViews = Result<(i64, i64, i64, i64), ()>;
+/// packed word, year, week, and `week0` guarded on its own (its `u32` subtraction is a separate panic site)
+type IsoViews = Result<(i64, i64, i64, Result<i64, ()>), ()>;
 type ZeroViews = [Result<u32, ()>; 3];
 fn iso_views(d: &NaiveDate) -> (IsoViews, ZeroViews) {
     let r = guard(|| {
         let iw = d.iso_week();
-        (ywf(&iw), iw.year() as i64, iw.week() as i64, iw.week0() as i64)
+        (ywf(&iw), iw.year() as i64, iw.week() as i64, guard(|| iw.week0() as i64))
     });
     (r, [guard(|| d.month0()), guard(|| d.day0()), guard(|| d.ordinal0())])
 }
@@ -59,7 +60,14 @@ fn iso_views_bad(d: &NaiveDate, r: &IsoViews, z: &ZeroViews) -> Vec<(&'static st
     let mut bad = vec![];
     match r {
         Ok((a, iy, w, w0)) => {
-            let (a, iy, w, w0) = (*a, *iy, *w, *w0);
+            let (a, iy, w) = (*a, *iy, *w);
+            let w0 = match w0 {
+                Ok(v) => *v,
+                Err(()) => {
+                    bad.push(("IsoWeek::week0 panicked (u32 underflow)", gs(|| show_obs(d), |s| s)));
+                    -1
+                }
+            };
             // the Thursday of the date's Monday-based week is day `ot` of calendar year `ty`
             let n = d.num_days_from_ce() as i64;
             let thu = n - (n + 6).rem_euclid(7) + 3;
@@ -99,8 +107,11 @@ fn iso_views_bad(d: &NaiveDate, r: &IsoViews, z: &ZeroViews) -> Vec<(&'static st
 fn check_iso_views(c: &mut Ctx, d: &NaiveDate) {
     let y = yof(d);
     let (r, z) = iso_views(d);
-    c.op(&format!("di.isoweek {y}"), &match r { Ok((a, b, w, w0)) => format!("{a} {b} {w} {w0}"), Err(()) => "panic".into() });
     let one = |r: &Result<u32, ()>| match r { Ok(v) => v.to_string(), Err(()) => "panic".into() };
+    c.op(&format!("di.isoweek {y}"), &match &r {
+        Ok((a, b, w, w0)) => format!("{a} {b} {w} {}", match w0 { Ok(v) => v.to_string(), Err(()) => "panic".into() }),
+        Err(()) => "panic".into(),
+    });
     c.op(&format!("di.zero {y}"), &format!("{} {} {}", one(&z[0]), one(&z[1]), one(&z[2])));
     for (what, detail) in iso_views_bad(d, &r, &z) {
         c.fail(what, &detail);
@@ -120,7 +131,7 @@ fn block_iso(y0: i32, y1: i32) -> (u64, Option<(&'static str, String)>) {
             };
             let (r, z) = iso_views(&d);
             h = match r {
-                Ok((a, b, w, w0)) => [a, b, w, w0].iter().fold(h, |h, v| mix(h, *v)),
+                Ok((a, b, w, w0)) => [a, b, w, w0.unwrap_or(-2)].iter().fold(h, |h, v| mix(h, *v)),
                 Err(()) => mix(h, -2),
             };
             for v in &z {
@@ -226,8 +237,16 @@ pub fn derived_views(d: &NaiveDate) -> Result<(), String> {
         if d.year_ce() != (y >= 1, if y >= 1 { y as u32 } else { (1 - y) as u32 }) {
             bad.push("year_ce is not (CE?, year or 1 - year)");
         }
-        if Datelike::num_days_from_ce(d) != d.num_days_from_ce() || Datelike::iso_week(d) != d.iso_week() {
-            bad.push("trait-provided view differs from the inherent one");
+        // through a generic `T: Datelike` (so the trait's provided `num_days_from_ce` / `year_ce` and the
+        // impl's `iso_week`, as any generic caller reaches them), judged against the independent calendar;
+        // the inherent `num_days_from_ce` is pub(crate) and only observable through C03's differences
+        fn via<T: Datelike>(t: &T) -> (i32, (bool, u32), i32, u32, i32, u32, u32, u32) {
+            let iw = t.iso_week();
+            (t.num_days_from_ce(), t.year_ce(), iw.year(), iw.week(), t.year(), t.month(), t.day(), t.ordinal())
+        }
+        let g = via(d);
+        if g.0 as i64 != day_num(y as i64, d.month() as i64, d.day() as i64) || (g.2, g.3) != (iw.year(), iw.week()) || g.1 != d.year_ce() || (g.4, g.5, g.6, g.7) != (y, d.month(), d.day(), d.ordinal()) {
+            bad.push("a Datelike view reached through a generic T: Datelike differs from the calendar / the direct call");
         }
         if d.leap_year() != is_leap(y as i64) {
             bad.push("leap_year disagrees with the Gregorian rule");
@@ -385,10 +404,15 @@ pub fn run(c: &mut Ctx) {
         }
         c.count_n("dates:enumerated-in-digests", ((*y1 - *y0 + 1) as u64) * 365);
     }
-    // the ISO-week word, its views, the 0-based twins and the ISO-week order of consecutive days: one whole
-    // 400-year cycle (all 14 year classes in every neighbourhood) and both range ends, in both tiers
+    // the ISO-week word, its views, the 0-based twins and the ISO-week order of consecutive days: quick — one
+    // whole 400-year cycle (all 14 year classes in every neighbourhood) and both range ends; thorough — every
+    // representable year (the same 400-year blocks as d.blockyo), so the packed ywf, week0 and the IsoWeek
+    // comparison of consecutive days are compared on every date, as the yof word already is
     let mut iso_blocks: Vec<(i32, i32)> = (0..20).map(|i| (1800 + 20 * i, 1819 + 20 * i)).collect();
     iso_blocks.extend([(MIN_YEAR - 1, MIN_YEAR + 2), (MAX_YEAR - 2, MAX_YEAR + 1), (-3, 3)]);
+    if c.tier != Tier::Quick {
+        iso_blocks.extend(blocks.iter().copied());
+    }
     for (y0, y1) in &iso_blocks {
         let (h, bad) = block_iso(*y0, *y1);
         c.op(&format!("di.blockiso {y0} {y1}"), &h.to_string());
